@@ -92,6 +92,25 @@ func c17RunImpl(c corr.Case) []string {
 					if err := afero.SafeWriteReader(st.Fs, path, bytes.NewReader(data)); err != nil {
 						return "rt fail: " + err.Error()
 					}
+				case "writefile-over", "writereader-over":
+					// the destination exists and holds MORE bytes than the new payload: the write replaces the file
+					old := genBytes(atoi(t[3])*2+7, atoi(t[4])+1)
+					dir := path[:strings.LastIndex(path, "/")+1]
+					if err := st.Fs.MkdirAll(dir, 0o755); err != nil {
+						return "rt fail: mkdirall " + err.Error()
+					}
+					if err := afero.WriteFile(st.Fs, path, old, 0o644); err != nil {
+						return "rt fail: setup " + err.Error()
+					}
+					var err error
+					if t[1] == "writefile-over" {
+						err = afero.WriteFile(st.Fs, path, data, 0o644)
+					} else {
+						err = afero.WriteReader(st.Fs, path, bytes.NewReader(data))
+					}
+					if err != nil {
+						return "rt fail: " + err.Error()
+					}
 				case "safeexisting":
 					old := genBytes(atoi(t[3])/2+3, atoi(t[4])+1)
 					if err := afero.WriteReader(st.Fs, path, bytes.NewReader(old)); err != nil {
@@ -409,7 +428,7 @@ func c17Random(r *corr.Rand, tier string) []corr.Case {
 			}
 			lines = append(lines, "contains "+corr.Hex(content)+args)
 		}
-		kinds := []string{"writefile", "writereader", "safewrite", "safeexisting"}
+		kinds := []string{"writefile", "writereader", "safewrite", "safeexisting", "writefile-over", "writereader-over"}
 		for k := 0; k < 2; k++ {
 			depth := 1 + rr.Intn(3)
 			p := ""
@@ -431,6 +450,9 @@ func c17Corpus() []corr.Case {
 		mk("case mem", "contains 636363636362636361 6162", "contains 61 00", "contains 6100 6100", "contains 61 6100"),
 		mk("case os", "contains 636363636362636361 6162", "contains 0102030405060708090a 0506"),
 		mk("case cow", "rt safeexisting 2f612f66 100 1", "rt writereader 2f6e65772f6465657065722f66 32769 2"),
+		mk("case mem", "rt writereader-over 2f612f66 5 1", "rt writefile-over 2f612f67 0 1", "rt writereader-over 2f612f68 40000 3"),
+		mk("case cache0", "rt writereader-over 2f612f66 5 1", "rt writefile-over 2f612f67 9 1"),
+		mk("case os", "rt writereader-over 2f612f66 5 1", "rt writefile-over 2f612f67 9 1"),
 	}
 }
 
